@@ -26,6 +26,30 @@ for L in range(0, 7):  # noqa
     HARNESSES['c15_any%d' % L] = h(length=L)
     QUERIES.append(dict(name='from_any_header_len%d' % L, harness='c15_any%d' % L, entry='h_from_any_header', unwind=L + 2, unwindset=us(L + 2), rec_unwind=3, tier='quick' if L in (0, 3) else 'thorough', timeout=1200, mem_gb=24,
                         shape='every header byte string of length %d (all 256 byte values, exactly sized buffer)' % L))
+
+# ---- leaf kernels (round 2): UrlEncode / UrlDecode directly, exact lengths
+def hu(L, extra=()):
+    return dict(src='c15_url.cc', defines=['LEN=%d' % L] + list(extra), models=['libc.c', 'cxxrt.c', 'stdstring.c', 'single_threaded.c'], model_defines=['VERIF_NEW_ARRAY_MAX=64', 'VERIF_STR_NO_HEAP'], ir2c_flags=['--new-array-max', '136'])
+for L in range(0, 5):
+    HARNESSES['c15_url%d' % L] = hu(L)
+    QUERIES.append(dict(name='url_decode_any_len%d' % L, harness='c15_url%d' % L, entry='h_url_decode_any', unwind=L + 2, unwindset=us(3 * L + 3), rec_unwind=3, tier='quick' if L in (0, 1, 3) else 'thorough', timeout=900,
+                        shape='UrlDecode on every byte string of length %d (all 256 byte values, exactly sized buffer) vs an independent decoder' % L))
+    if L <= 3:
+        QUERIES.append(dict(name='url_roundtrip_len%d' % L, harness='c15_url%d' % L, entry='h_url_roundtrip', unwind=3 * L + 2, unwindset=us(3 * L + 3), rec_unwind=3, tier='quick' if L in (1, 2) else 'thorough', timeout=900,
+                            shape='UrlDecode(UrlEncode(s)) == s and the encoder alphabet for every printable s of length %d' % L))
+
+# ---- composite propagator / baggage extract with nothing valid (round 2)
+def hc(n, junk=0):
+    return dict(src='c15_composite.cc', defines=['NPROP=%d' % n, 'JUNK=%d' % junk], overrides=[SP_RELEASE], models=['libc.c', 'cxxrt.c', 'stdstring.c', 'single_threaded.c', SP_LEAK_MODEL],
+                model_defines=['VERIF_NEW_ARRAY_MAX=64', 'VERIF_STR_NO_HEAP'], ir2c_flags=['--new-array-max', '136'])
+for n in (2, 3):
+    HARNESSES['c15_cp%d' % n] = hc(n)
+    QUERIES.append(dict(name='composite_n%d' % n, harness='c15_cp%d' % n, entry='h_composite', unwind=8, unwindset=us(8), rec_unwind=3, tier='quick' if n == 2 else 'thorough', timeout=900,
+                        shape='CompositePropagator over %d mock propagators: inject order, extract threading, empty composite' % n))
+for j, txt in enumerate(('empty header', 'a member without =', 'a member with empty key', 'only a separator')):
+    HARNESSES['c15_bx%d' % j] = hc(2, j)
+    QUERIES.append(dict(name='baggage_extract_nothing_valid_%d' % j, harness='c15_bx%d' % j, entry='h_baggage_extract_nothing_valid', unwind=8, unwindset=us(8), rec_unwind=3, tier='quick' if j in (0, 1) else 'thorough', timeout=900,
+                        shape='BaggagePropagator::Extract, context already holding a value under the baggage key, header = %s' % txt))
 BOUNDS = ['round trip: one entry, key 1..3 and value 0..3 characters over a 16-letter alphabet covering every class UrlEncode/UrlDecode/the tokenizer distinguish',
           'Set/Delete/list round trip: 0..3 entries with 1-byte keys and values', 'arbitrary headers of every length 0..6 (quick: 0, 3), exactly sized buffers']
 OUTSIDE = ['the 180-member, 4096-byte and 8192-byte limits (not exercised: would need scaled constants; FromHeader at small lengths only)', 'BaggagePropagator / CompositePropagator / Context plumbing (virtual carriers, Context copies) - not encoded',
